@@ -247,16 +247,27 @@ class Source:
 # Rewrite helpers (DESIGN 3.2)
 # --------------------------------------------------------------------------------------------
 def strip_attrs_and_docs(text: str) -> str:
-    """R0: drop doc comments and #[...] attributes inside an item, keeping line structure."""
+    """R0: drop doc comments and #[...] attributes (possibly multi-line) inside an item, keeping line structure."""
+    mask = mask_rust(text)
+    out = list(text)
+    k = 0
+    while k < len(mask):
+        if mask[k] == "#" and k + 1 < len(mask) and mask[k + 1] == "[":
+            e = match_brace(mask, k + 1)
+            for j in range(k, e + 1):
+                if out[j] != "\n":
+                    out[j] = " "
+            k = e + 1
+        else:
+            k += 1
+    text = "".join(out)
     out_lines = []
     for ln in text.split("\n"):
         s = ln.strip()
         if s.startswith("///") or s.startswith("//!"):
             out_lines.append("")
-        elif re.match(r"#\[[^\]]*\]$", s):
-            out_lines.append("")
         else:
-            out_lines.append(ln)
+            out_lines.append(ln.rstrip())
     return "\n".join(out_lines)
 
 
@@ -296,8 +307,11 @@ def rule_R4(body: str, log, where):
                 break
         if changed:
             continue
-        for s, o, c in _macro_call_spans(mask, "unreachable"):
+        for s, o, c in list(_macro_call_spans(mask, "unreachable")) + list(_macro_call_spans(mask, "panic")):
             new = "vstd::pervasive::unreached()"
+            if body[c + 1:c + 2] == ";":
+                # statement position: the macro diverges (type `!`); keep the block's type by returning
+                new = "return vstd::pervasive::unreached()"
             pad = "\n" * body[s:c + 1].count("\n")
             log.append({"rule": "R4", "where": where, "before": body[s:c + 1], "after": new})
             body = body[:s] + new + pad + body[c + 1:]
@@ -478,6 +492,9 @@ def parse_template(path):
                 elif key in ("rewrite", "rewrite*"):
                     rule, frm, to = [x.strip() for x in val.split(" | ")]
                     spec["rewrites"].append((rule, frm.replace("\\n", "\n"), to, key.endswith("*")))
+                elif key == "rewrite-re":
+                    rule, frm, to = [x.strip() for x in val.split(" | ")]
+                    spec.setdefault("rewrites_re", []).append((rule, frm, to))
                 elif key == "insert":
                     pos, anchor, text = [x.strip() for x in val.split(" | ", 2)]
                     spec["inserts"].append((pos, anchor, text))
@@ -627,6 +644,12 @@ def generate(unit, template_path, canary=False):
             body = rule_R4(body, g.rewrites, where)
             for rule, frm, to, allocc in spec["rewrites"]:
                 body = apply_rewrite(body, rule, frm, to, allocc, g.rewrites, where)
+            for rule, frm, to in spec.get("rewrites_re", []):
+                new_body, cnt = re.subn(frm, to, body)
+                if cnt == 0:
+                    raise AnchorLost(f"{where}: rewrite-re {rule} pattern not found: `{frm}`")
+                g.rewrites.append({"rule": rule, "where": where, "before": "/" + frm + "/", "after": to, "count": cnt})
+                body = new_body
             if spec.get("closures"):
                 # R3+R10: annotate the n-th closure (textual order, before other rewrites shift nothing: applied last-first)
                 cl = find_closures(mask_rust(body))
